@@ -4,9 +4,10 @@
 import re
 
 B_HOST = ["a.com", "b.a.co.uk", "télérama.fr", "shop.example.org", "facebook.com", "youtube.com"]
-B_PATH = ["", "/p", "/p/q", "/P/Q.html", "/a b/é"]
+B_PATH = ["", "/p", "/p/q", "/P/Q.html", "/a b/é", "/a%2fb%20c"]
+B_FRAG = ["", "/home/inbox", "!/home"]
 B_QUERY = [[], ["x=1"], ["x=1", "y=2"], ["y=2", "x=1", "z"], ["id=", "x=a b"], ["z", "z=", "z=1"]]
-BASE = [("b_host", B_HOST), ("b_path", B_PATH), ("b_query", list(range(len(B_QUERY))))]
+BASE = [("b_host", B_HOST), ("b_path", B_PATH), ("b_query", list(range(len(B_QUERY)))), ("b_frag", B_FRAG)]
 
 # representative irrelevant items: one per alternative group of the documented vocabulary
 # items that only the per-domain filters drop: "<domain suffix>|item"
@@ -51,8 +52,9 @@ def toggles(tier):
         ("t_esc_path", ESC),
         ("t_esc_query", ESC),
         ("t_esc_item", ["raw", "letter", "lower-hex"]),
-        ("t_wrap", ["", "left", "right", "tabs", "ctrl-mid", "ctrl-end", "ctrl-space-left", "space-ctrl-right"]),
-        ("t_dot", ["", "lead-dot", "mid-pair", "lead-empty", "mid-emptypair"]),
+        ("t_esc_frag", ["raw", "first", "letter"]),
+        ("t_wrap", ["", "left", "right", "tabs", "ctrl-mid", "ctrl-end", "ctrl-space-left", "space-ctrl-right", "ctrl-in-escape"]),
+        ("t_dot", ["", "lead-dot", "mid-pair", "lead-empty", "mid-emptypair", "lead-up"]),
     ]
 
 
@@ -116,6 +118,8 @@ def build(case, toggled=True, extra=None):
         path = "/." + (path or "/")
     elif td == "lead-empty":
         path = "/" + (path or "/")
+    elif td == "lead-up":
+        path = "/.." + (path or "/")
     elif td in ("mid-pair", "mid-emptypair"):
         m = re.match(r"^(/[^/]+)(/.*)$", path)
         if m:
@@ -136,6 +140,15 @@ def build(case, toggled=True, extra=None):
     sepr = g("t_amp", "") or "&"
     query = ("?" + sepr.join(items)) if items else ""
     frag = g("t_frag", "")
+    bfrag = case.get("b_frag", "")
+    if bfrag:
+        # a client-side routing fragment is part of the base; only its spelling varies
+        em = g("t_esc_frag", "raw")
+        if em == "first":
+            bfrag = "%%%02X" % ord(bfrag[0]) + bfrag[1:]
+        elif em == "letter":
+            bfrag = esc_component(bfrag, "letter")
+        frag = "#" + bfrag
     parts = {"scheme": scheme, "auth": auth, "host": host, "port": port, "path": path, "query": query, "frag": frag}
     if extra is not None:
         parts = extra(parts, g)
@@ -152,6 +165,10 @@ def build(case, toggled=True, extra=None):
         url = url[:i] + "\x00" + url[i:]
     elif w == "ctrl-end":
         url = url + "\x7f\x85"
+    elif w == "ctrl-in-escape":
+        i = url.find("%2")
+        if i >= 0:
+            url = url[: i + 2] + "\x00" + url[i + 2:]
     elif w == "ctrl-space-left":
         url = "\x00 " + url
     elif w == "space-ctrl-right":
